@@ -17,7 +17,7 @@ DRIVER = 'C12'
 REQUIRED = [
     'Ems.C12.floor_index_spec', 'Ems.C12.floor_index_none', 'Ems.C12.floor_index_valid_only',
     'Ems.C12.column_floor_spec', 'Ems.C12.floor_spec', 'Ems.C12.other_vars_untouched',
-    'Ems.C12.depth_removed', 'Ems.C12.ocean_floor_succeeds', 'Ems.C12.keep_bounds_breaks_ocean_floor',
+    'Ems.C12.depth_removed', 'Ems.C12.ocean_floor_succeeds', 'Ems.C12.keep_bounds_breaks_ocean_floor', 'Ems.C12.sizes_kept',
 ]
 RULE = ('(a) every floor shape of a 2x3 column grid with 2 layers (3^6 = 729 wet-layer assignments, each column '
         '0..all layers wet) is enumerated, spread over datasets of the four conventions with a 2x3 face grid; each '
@@ -39,7 +39,8 @@ TRUSTED = ['xarray: cumsum(skipna) / argmax along a named dimension, isel with a
            'dimensions), merge(compat="override") keeps the left operand\'s variables, drop_dims',
            'the order in which `sorted(depth_dimensions, key=hash)` visits the dimensions is passed to the model; '
            'Ems.C12.floor_spec holds for every order']
-ASSUMPTIONS = ['static floor: inside one (depth dimension, spatial dimension set) group validity depends only on '
+ASSUMPTIONS = ['non-spatial (time) dimensions are non-empty and are not depth dimensions; each group has at least one spatial dimension',
+               'static floor: inside one (depth dimension, spatial dimension set) group validity depends only on '
                '(layer, spatial location), not on the variable or the non-spatial index',
                'each variable has at most one depth dimension; depth coordinates as in C13 on pairwise distinct dimensions',
                'xarray coordinates that carry a depth dimension are one-dimensional',
@@ -385,7 +386,7 @@ def run(ctx) -> None:
             if shape_nontrivial(s, 2):
                 ctx.nontrivial(('shape', s))
     ctx.exhaustive = True
-    ctx.notes.append(f'{n_shapes} floor shapes of the 2x3 grid with 2 layers enumerated')
+    ctx.notes.append('all 3^6 = 729 floor shapes of the 2x3 grid with 2 layers enumerated')
     if ctx.thorough:
         # 3 layers: 4^6 = 4096 shapes, all of them
         for recipe, shapes in exhaustive_recipes(rng, 3):
@@ -393,7 +394,7 @@ def run(ctx) -> None:
             one(db, D.discovery(db), [db.time_name], 'function', 'exhaustive3', True, ('exh3', db.conv, tuple(shapes[0])))
 
     # (b) random datasets
-    for i in range(ctx.budget(40, 500)):
+    for i in range(ctx.budget(100, 1500)):
         conv = D.CONVS[i % 5]
         recipe = random_recipe(rng, conv, ctx.tier)
         db = D.build(recipe)
@@ -405,7 +406,7 @@ def run(ctx) -> None:
         one(db, names, [db.time_name], via, 'random', True, ('rnd', conv, cfg, i))
 
     # (c) extended stream: model against code only
-    for i in range(ctx.budget(50, 400)):
+    for i in range(ctx.budget(60, 600)):
         conv = D.CONVS[i % 5]
         recipe, names, ns, label = extended_recipe(rng, conv)
         try:
